@@ -24,6 +24,7 @@ import (
 	"os"
 	"runtime/debug"
 	"runtime/metrics"
+	"runtime/pprof"
 	"strings"
 	"sync/atomic"
 	"time"
@@ -75,10 +76,8 @@ func guarded(desc string, f func()) (panicked string) {
 	wdStart.Store(0)
 	if allocated()-before > 48<<20 {
 		// a declared size made the decoder allocate a lot (valid but huge length, see DESIGN C08
-		// Partial): hand the memory back at once so that the next large request gets fresh zero
-		// pages instead of clearing a recycled span
+		// Partial); only counted: the generators keep declared sizes within one frame
 		bigAllocs++
-		debug.FreeOSMemory()
 	}
 	return p
 }
@@ -93,8 +92,8 @@ func allocated() uint64 {
 	return allocSample[0].Value.Uint64()
 }
 
-// safeBytes: random bytes in which no run of continuation bytes is longer than two, so that a VarInt
-// read at any offset is below 2^21 (for decoders that allocate what a length prefix declares)
+// safeBytes: random bytes in which no two continuation bytes follow each other, so that a VarInt
+// read at any offset is below 2^14 (for decoders that allocate what a length prefix declares)
 func safeBytes(r *hx.Rng, n int) []byte {
 	b := r.Bytes(n)
 	run := 0
@@ -104,7 +103,7 @@ func safeBytes(r *hx.Rng, n int) []byte {
 		}
 		if b[i] >= 0x80 {
 			run++
-			if run > 2 {
+			if run > 1 {
 				b[i] &= 0x7f
 				run = 0
 			}
@@ -529,8 +528,8 @@ func mutations(r *hx.Rng, valid []byte, huge int32, maxPos int, f func(kind stri
 		if v, w, ok := parseVarint(valid, p); ok {
 			remaining := int32(n - p - w)
 			hg := huge
-			if k >= 6 && hg > 1<<16 && hg < 1<<31-1 {
-				hg = 1 << 16 // decoders that allocate first: the frame-sized value only at a few positions
+			if k >= 1 && hg > 1<<14 && hg < 1<<31-1 {
+				hg = 1 << 14 // decoders that allocate first: the frame-sized value only at the first positions
 			}
 			for _, h := range []int32{-1, -1 << 31, hg, 0, v - 1, v + 1, remaining + 1, remaining} {
 				if h == v {
@@ -541,9 +540,15 @@ func mutations(r *hx.Rng, valid []byte, huge int32, maxPos int, f func(kind stri
 			}
 		}
 		for _, pat := range [][]byte{{0xff, 0xff, 0xff, 0xff}, {0x80, 0, 0, 0}, {0, 0x01, 0, 0}, {0, 0, 0, 0}, {0xff, 0xff}, {0x80, 0}, {0x7f, 0xff}, {0, 0}, {0xff}, {0}} {
+			if huge != 1<<31-1 && len(pat) < 4 && (pat[0] == 0x7f || pat[0] == 0xff) {
+				continue // part of a big-endian length: 0x7fff...., 0x00ffff.. would be allocated up front
+			}
 			if p+len(pat) <= n {
 				m := append([]byte{}, valid...)
 				copy(m[p:], pat)
+				if huge != 1<<31-1 && declaresHuge(m, p-4, p+len(pat)) {
+					continue // e.g. ff ff ff ff 07 read as a VarInt: 2^31-1 elements allocated up front
+				}
 				f("fixed", m)
 			}
 		}
@@ -556,22 +561,33 @@ func mutations(r *hx.Rng, valid []byte, huge int32, maxPos int, f func(kind stri
 	for i := 0; i < maxPos; i++ {
 		m := append([]byte{}, valid...)
 		for k := 1 + r.Intn(3); k > 0 && n > 0; k-- {
-			v := byte(r.Next())
+			i, v := r.Intn(n), byte(r.Next())
 			if huge != 1<<31-1 {
-				v &= 0x7f
+				v &= m[i] // only clear bits: no length field, VarInt or big-endian, grows
 			}
-			m[r.Intn(n)] = v
+			m[i] = v
 		}
 		f("flip", m)
 	}
 }
 
+// declaresHuge: a VarInt starting in [lo,hi) has a positive value above what a frame can carry
+func declaresHuge(b []byte, lo, hi int) bool {
+	for p := max(lo, 0); p < hi && p < len(b); p++ {
+		if v, _, ok := parseVarint(b, p); ok && v > frameCap {
+			return true
+		}
+	}
+	return false
+}
+
 type hostile struct {
-	name   string
-	valid  [][]byte
-	huge   int32
-	maxPos int
-	run    func(b []byte) error
+	fixedLen bool // has big-endian length fields that are allocated up front: no random bytes
+	name     string
+	valid    [][]byte
+	huge     int32
+	maxPos   int
+	run      func(b []byte) error
 }
 
 func runHostile(o *hx.Out, h hostile) {
@@ -591,6 +607,9 @@ func runHostile(o *hx.Out, h hostile) {
 			return safeBytes(o.R, n)
 		}
 		return o.R.Bytes(n)
+	}
+	if h.fixedLen {
+		return
 	}
 	for i := 0; i < o.N(300, 10); i++ {
 		one("random", rnd(o.R.Intn(40)))
@@ -635,7 +654,7 @@ func frames(o *hx.Out) []hostile {
 	for _, thr := range []int{-1, 0, 64, 256} {
 		thr := thr
 		hs = append(hs, hostile{
-			name: fmt.Sprintf("frame.thr%d", thr), huge: 1<<31 - 1, maxPos: 80,
+			name: fmt.Sprintf("frame.thr%d", thr), huge: frameCap, maxPos: 80,
 			valid: [][]byte{mk(thr), mk(thr, pk.String("hi"), pk.VarInt(300)), mk(thr, big)},
 			run: func(b []byte) error {
 				var p pk.Packet
@@ -649,7 +668,7 @@ func frames(o *hx.Out) []hostile {
 		})
 	}
 	// a frame written for one mode read in the other
-	hs = append(hs, hostile{name: "frame.crossmode", huge: 1<<31 - 1, maxPos: 60,
+	hs = append(hs, hostile{name: "frame.crossmode", huge: frameCap, maxPos: 60,
 		valid: [][]byte{mk(-1, big), mk(0, big)},
 		run: func(b []byte) error {
 			var p pk.Packet
@@ -668,6 +687,7 @@ func fields(o *hx.Out) []hostile {
 	var hs []hostile
 	add := func(name string, huge int32, valid []byte, mk func() pk.FieldDecoder) {
 		hs = append(hs, hostile{name: "field." + name, huge: huge, maxPos: 64, valid: [][]byte{valid},
+			fixedLen: name == "ary.int" || name == "ary.long",
 			run: func(b []byte) error {
 				_, e1 := mk().ReadFrom(reader(b))
 				_, e2 := mk().ReadFrom(plain{reader(b)})
@@ -730,19 +750,19 @@ func fields(o *hx.Out) []hostile {
 }
 
 type nbtDoc struct {
-	Name  string            `nbt:"name"`
-	Ints  []int32           `nbt:"ints"`
-	Longs []int64           `nbt:"longs"`
-	Bytes []byte            `nbt:"bytes"`
-	List  []string          `nbt:"list"`
-	Sub   map[string]any    `nbt:"sub"`
-	Raw   nbt.RawMessage    `nbt:"raw"`
+	Name  string             `nbt:"name"`
+	Ints  []int32            `nbt:"ints"`
+	Longs []int64            `nbt:"longs"`
+	Bytes []byte             `nbt:"bytes"`
+	List  []string           `nbt:"list"`
+	Sub   map[string]any     `nbt:"sub"`
+	Raw   nbt.RawMessage     `nbt:"raw"`
 	Deep  [][]map[string]any `nbt:"deep"`
 }
 
 func nbtFields(o *hx.Out) []hostile {
 	doc := nbtDoc{Name: "n", Ints: []int32{1, -2}, Longs: []int64{3, 4}, Bytes: []byte{5, 6, 7}, List: []string{"x", "yz"},
-		Sub: map[string]any{"k": int16(9), "f": float32(1.5), "l": []any{int32(1), int32(2)}},
+		Sub:  map[string]any{"k": int16(9), "f": float32(1.5), "l": []any{int32(1), int32(2)}},
 		Deep: [][]map[string]any{{{"a": int8(1)}}, {}}}
 	var rawbuf bytes.Buffer
 	e := nbt.NewEncoder(&rawbuf)
@@ -752,7 +772,7 @@ func nbtFields(o *hx.Out) []hostile {
 	valid := enc(pk.NBT(doc))
 	var hs []hostile
 	add := func(name string, mk func() pk.FieldDecoder) {
-		hs = append(hs, hostile{name: "nbt." + name, huge: frameCap, maxPos: 120, valid: [][]byte{valid, enc(pk.NBT(nil))},
+		hs = append(hs, hostile{fixedLen: true, name: "nbt." + name, huge: frameCap, maxPos: 120, valid: [][]byte{valid, enc(pk.NBT(nil))},
 			run: func(b []byte) error { _, err := mk().ReadFrom(reader(b)); return err }})
 	}
 	add("struct", func() pk.FieldDecoder { return pk.NBT(new(nbtDoc)) })
@@ -771,22 +791,22 @@ func nbtFields(o *hx.Out) []hostile {
 
 func chatDecoders(o *hx.Out) []hostile {
 	msg := chat.Message{Text: "hello ", Bold: true, Color: "red",
-		Extra: []chat.Message{{Text: "w"}, {Translate: "chat.type.text", With: []any{chat.Text("a"), chat.Text("b")}}},
+		Extra:      []chat.Message{{Text: "w"}, {Translate: "chat.type.text", With: []any{chat.Text("a"), chat.Text("b")}}},
 		ClickEvent: &chat.ClickEvent{Action: "run_command", Value: "/x"}}
 	nbtValid := [][]byte{enc(msg), enc(chat.Text("plain")), enc(pk.NBT("just a string")), enc(pk.NBT([]chat.Message{{Text: "l"}}))}
 	js := chat.JsonMessage(msg)
 	jsonValid := [][]byte{enc(js), enc(pk.String(`"s"`)), enc(pk.String(`[{"text":"a"},"b"]`)), enc(pk.String(`{"translate":"k","with":["x",{"text":"y"}]}`))}
 	deep := strings.Repeat(`{"extra":[`, 3000) + `"x"` + strings.Repeat(`]}`, 3000)
 	return []hostile{
-		{name: "chat.nbt", huge: frameCap, maxPos: 120, valid: nbtValid,
+		{fixedLen: true, name: "chat.nbt", huge: frameCap, maxPos: 120, valid: nbtValid,
 			run: func(b []byte) error { var m chat.Message; _, err := m.ReadFrom(reader(b)); return err }},
 		{name: "chat.json", huge: frameCap, maxPos: 120, valid: append(jsonValid, enc(pk.String(deep))),
 			run: func(b []byte) error { var m chat.JsonMessage; _, err := m.ReadFrom(reader(b)); return err }},
 		{name: "chat.json.raw", huge: frameCap, maxPos: 100, valid: [][]byte{jsonValid[0][2:], []byte(`"s"`), []byte(` [ ] `)},
 			run: func(b []byte) error { var m chat.Message; return m.UnmarshalJSON(b) }},
-		{name: "chat.type", huge: frameCap, maxPos: 100,
+		{fixedLen: true, name: "chat.type", huge: frameCap, maxPos: 100,
 			valid: [][]byte{enc(&chat.Type{ID: 1, SenderName: chat.Text("s"), TargetName: &msg}), enc(&chat.Type{ID: 0, SenderName: msg})},
-			run: func(b []byte) error { var t chat.Type; _, err := t.ReadFrom(reader(b)); return err }},
+			run:   func(b []byte) error { var t chat.Type; _, err := t.ReadFrom(reader(b)); return err }},
 	}
 }
 
@@ -907,16 +927,16 @@ func levelDecoders(o *hx.Out) []hostile {
 			_, err := c.Sections[0].ReadFrom(reader(b))
 			return err
 		}})
-	hs = append(hs, hostile{name: "blockentity", huge: frameCap, maxPos: 80, valid: [][]byte{enc(ch.BlockEntity[0]), enc(ch.BlockEntity[1])},
+	hs = append(hs, hostile{fixedLen: true, name: "blockentity", huge: frameCap, maxPos: 80, valid: [][]byte{enc(ch.BlockEntity[0]), enc(ch.BlockEntity[1])},
 		run: func(b []byte) error { var e level.BlockEntity; _, err := e.ReadFrom(reader(b)); return err }})
 	data, _ := ch.Data()
 	hs = append(hs, hostile{name: "putdata", huge: frameCap, maxPos: 80, valid: [][]byte{data},
 		run: func(b []byte) error { return level.EmptyChunk(4).PutData(b) }})
 	for _, secs := range []int{0, 1, 4, 24} {
 		secs := secs
-		hs = append(hs, hostile{name: fmt.Sprintf("chunk.s%d", secs), huge: frameCap, maxPos: 120,
+		hs = append(hs, hostile{fixedLen: true, name: fmt.Sprintf("chunk.s%d", secs), huge: frameCap, maxPos: 120,
 			valid: [][]byte{enc(sampleChunk(secs, true)), enc(sampleChunk(secs, false))},
-			run: func(b []byte) error { _, err := level.EmptyChunk(secs).ReadFrom(reader(b)); return err }})
+			run:   func(b []byte) error { _, err := level.EmptyChunk(secs).ReadFrom(reader(b)); return err }})
 	}
 	// height maps of every wrong size, absent, empty, of another tag type
 	hm := func(mb, ws any) []byte {
@@ -934,7 +954,7 @@ func levelDecoders(o *hx.Out) []hostile {
 		hv = append(hv, hm(make([]int64, l), nil), hm(nil, make([]int64, l)), hm(make([]int64, 37), make([]int64, l)))
 	}
 	hv = append(hv, hm(nil, nil), hm([]int32{1, 2}, nil), hm("x", int8(1)), hm([]any{}, []any{int64(1)}))
-	hs = append(hs, hostile{name: "chunk.heightmaps", huge: frameCap, maxPos: 40, valid: hv,
+	hs = append(hs, hostile{fixedLen: true, name: "chunk.heightmaps", huge: frameCap, maxPos: 40, valid: hv,
 		run: func(b []byte) error { _, err := level.EmptyChunk(24).ReadFrom(reader(b)); return err }})
 	return hs
 }
@@ -956,16 +976,28 @@ func registryDecoders(o *hx.Out) []hostile {
 		return &r
 	}
 	return []hostile{
-		{name: "registry.dimension", huge: big, maxPos: 120, valid: [][]byte{regValid},
-			run: func(b []byte) error { r := registry.NewRegistry[registry.Dimension](); _, err := r.ReadFrom(reader(b)); return err }},
-		{name: "registry.raw", huge: big, maxPos: 80, valid: [][]byte{rawValid},
-			run: func(b []byte) error { r := registry.NewRegistry[nbt.RawMessage](); _, err := r.ReadFrom(reader(b)); return err }},
-		{name: "registry.chattype", huge: big, maxPos: 80, valid: [][]byte{rawValid},
-			run: func(b []byte) error { r := registry.NewRegistry[registry.ChatType](); _, err := r.ReadFrom(reader(b)); return err }},
+		{fixedLen: true, name: "registry.dimension", huge: frameCap, maxPos: 120, valid: [][]byte{regValid},
+			run: func(b []byte) error {
+				r := registry.NewRegistry[registry.Dimension]()
+				_, err := r.ReadFrom(reader(b))
+				return err
+			}},
+		{fixedLen: true, name: "registry.raw", huge: frameCap, maxPos: 80, valid: [][]byte{rawValid},
+			run: func(b []byte) error {
+				r := registry.NewRegistry[nbt.RawMessage]()
+				_, err := r.ReadFrom(reader(b))
+				return err
+			}},
+		{fixedLen: true, name: "registry.chattype", huge: frameCap, maxPos: 80, valid: [][]byte{rawValid},
+			run: func(b []byte) error {
+				r := registry.NewRegistry[registry.ChatType]()
+				_, err := r.ReadFrom(reader(b))
+				return err
+			}},
 		// ReadTagsFrom allocates its value slice before reading: the size tried is what a frame carries
 		{name: "registry.tags", huge: frameCap, maxPos: 80, valid: [][]byte{tagsValid},
 			run: func(b []byte) error { _, err := mkReg().ReadTagsFrom(reader(b)); return err }},
-		{name: "registry.codec", huge: frameCap, maxPos: 60, valid: [][]byte{tagsValid, rawValid},
+		{fixedLen: true, name: "registry.codec", huge: frameCap, maxPos: 60, valid: [][]byte{tagsValid, rawValid},
 			run: func(b []byte) error {
 				c := registry.NewNetworkCodec()
 				var err error
@@ -1022,7 +1054,7 @@ func tagsCases(o *hx.Out) {
 	}
 	for _, v := range valid {
 		for _, nv := range []int{0, 3} {
-			mutations(o.R, v, frameCap, 64, func(kind string, b []byte) { one(kind, nv, b) })
+			mutations(o.R, v, 1<<14, 64, func(kind string, b []byte) { one(kind, nv, b) })
 		}
 	}
 	// all byte strings of length <= 2 over a small byte alphabet, then random ones
@@ -1040,7 +1072,7 @@ func tagsCases(o *hx.Out) {
 		b := make([]byte, o.R.Intn(14))
 		for k := range b {
 			b[k] = al[o.R.Intn(len(al))]
-			if o.R.Intn(4) == 0 || (k >= 2 && b[k-1] >= 0x80 && b[k-2] >= 0x80) {
+			if o.R.Intn(4) == 0 || (k >= 1 && b[k-1] >= 0x80) {
 				b[k] = byte(o.R.Intn(6))
 			}
 		}
@@ -1052,6 +1084,11 @@ func main() {
 	debug.SetMemoryLimit(8 << 30)
 	o := hx.Open()
 	defer o.Close()
+	if pf := os.Getenv("C08_PROF"); pf != "" {
+		f, _ := os.Create(pf)
+		pprof.StartCPUProfile(f)
+		defer pprof.StopCPUProfile()
+	}
 	watchdog(o, 30*time.Second)
 	t0 := time.Now()
 	lap := func(what string) {
@@ -1060,7 +1097,9 @@ func main() {
 		}
 		t0 = time.Now()
 	}
-	execCases(o)
+	if os.Getenv("C08_SKIP_EXEC") == "" {
+		execCases(o)
+	}
 	lap("exec")
 	jsonCases(o)
 	lap("json")
@@ -1068,6 +1107,9 @@ func main() {
 	lap("tags")
 	skeletonCases(o)
 	lap("skeleton")
+	if os.Getenv("C08_ONLY") == "tags" {
+		return
+	}
 	var hs []hostile
 	hs = append(hs, frames(o)...)
 	hs = append(hs, fields(o)...)
